@@ -3,6 +3,8 @@ import hashlib
 import itertools
 import multiprocessing
 import os
+import re
+from pathlib import Path
 import common as C
 
 PROPERTIES = ["C03"]
@@ -40,6 +42,71 @@ MANIFEST = {
 PROPS = ["Nstd.Seq.Props"]
 LEAN_TARGETS = PROPS + ["drv_seq"]
 DRIVER = "drv_seq"
+
+
+# ---- translator: the container constants of the current sources -> lean/Nstd/Generated/SeqConst.lean ----------
+GEN_OUT = C.LEAN / "Nstd" / "Generated" / "SeqConst.lean"
+
+
+def _strip(src):
+    src = re.sub(r"/\*.*?\*/", " ", src, flags=re.S)
+    return re.sub(r"//[^\n]*", "", src)
+
+
+def translate(repo=None):
+    """(ok, message).  Extracts the growth mask of Array::reserve and the items-per-block constants of List::insert and
+    PoolList::allocateFreeItem (allocation size and loop bound must agree) and writes them as Lean definitions; the
+    theorems `reserve_policy_source` / `block_items_source` of Props.lean are stated over these definitions.  The file is
+    rewritten only when its content changes."""
+    repo = Path(repo or C.REPO)
+    try:
+        arr = _strip((repo / "include/nstd/Array.hpp").read_text())
+        lst = _strip((repo / "include/nstd/List.hpp").read_text())
+        pol = _strip((repo / "include/nstd/PoolList.hpp").read_text())
+    except OSError as e:
+        return False, f"cannot read the headers: {e}"
+    m = re.search(r"void\s+reserve\s*\(\s*usize\s+size\s*\)(.*?)\n  }\n", arr, flags=re.S)
+    if not m:
+        return False, "Array::reserve(usize) not found"
+    masks = re.findall(r"_capacity\s*\|=\s*(0[xX][0-9a-fA-F]+|\d+)\s*;", m.group(1))
+    if len(masks) != 1:
+        return False, f"expected one `_capacity |= <mask>;` in Array::reserve, found {masks}"
+    mask = int(masks[0], 0)
+    la = re.findall(r"new\s+char\s*\[\s*sizeof\(ItemBlock\)\s*\+\s*sizeof\(Item\)\s*\*\s*(\d+)\s*\]", lst)
+    lb = re.findall(r"\*\s*end\s*=\s*i\s*\+\s*(\d+)\s*;", lst)
+    if len(la) != 1 or len(lb) != 1 or la != lb:
+        return False, f"List::insert: block allocation {la} and fill loop bound {lb} not found or different"
+    slot = r"(?:slotSize|\(\s*sizeof\(Item\)\s*\+\s*sizeof\(T\)\s*\))"
+    pa = re.findall(r"new\s+char\s*\[\s*sizeof\(ItemBlock\)\s*\+\s*" + slot + r"\s*\*\s*(\d+)\s*\]", pol)
+    pb = re.findall(r"\(char\*\)\s*i\s*\+\s*(\d+)\s*\*\s*" + slot, pol)
+    if len(pa) != 1 or len(pb) != 1 or pa != pb:
+        return False, f"PoolList::allocateFreeItem: block allocation {pa} and fill loop bound {pb} not found or different"
+    text = ("/- generated by tools/areas/seq.py (translate) from include/nstd/{Array,List,PoolList}.hpp - do not edit -/\n"
+            "namespace Nstd.Generated.Seq\n\n"
+            "/-- `_capacity |= <mask>;` in `Array::reserve` -/\n"
+            f"def arrayCapMask : Nat := {mask}\n\n"
+            "/-- items per block: `new char[sizeof(ItemBlock) + sizeof(Item) * N]` and `end = i + N` in `List::insert` -/\n"
+            f"def listBlockItems : Nat := {int(la[0])}\n\n"
+            "/-- items per block in `PoolList::allocateFreeItem` -/\n"
+            f"def poolBlockItems : Nat := {int(pa[0])}\n\n"
+            "end Nstd.Generated.Seq\n")
+    GEN_OUT.parent.mkdir(parents=True, exist_ok=True)
+    if not GEN_OUT.exists() or GEN_OUT.read_text() != text:
+        GEN_OUT.write_text(text)
+    return True, f"mask={mask} list={la[0]} pool={pa[0]}"
+
+
+def gen(ctx):
+    ok, msg = translate()
+    if ctx is not None:
+        ctx.cov.setdefault("translated", msg)
+    return ok, msg
+
+
+def setup():
+    ok, msg = translate()
+    if not ok:
+        print("seq translate:", msg)
 
 
 # ---- reference (plain Python lists; independent of the Lean model) -------------------------------
@@ -814,7 +881,7 @@ def check(ctx):
         "Array: capacity model + cell-level model of the loops (proved related, run in lockstep); separate containers never alias",
         "allocation never fails for the sizes of the histories (<= 45 elements per request); the byte-size overflow of reserve is probed separately on the real code",
     ]
-    proof_ok = C.proof_stage(ctx, PROPS, [DRIVER], leanchecker=(ctx.tier == "thorough"))
+    proof_ok = C.proof_stage(ctx, PROPS, [DRIVER], gen=gen, leanchecker=(ctx.tier == "thorough"))
     harness, pf = build(ctx)
     if harness is None or not C.driver_path(DRIVER).exists():
         return
